@@ -275,134 +275,158 @@ def delegation(rep, F):
 
 # ------------------------------------------------------------------ bounding rect
 def bounding_rect(rep, F):
-    rep.rule("R19.5", "collection bounding_rect: fold from None with merge semantics (None,None)->None, (Some a,None)->a, (None,Some b)->b, (Some a,Some b)->merge(a,b)")
+    """R19.5: GeometryCollection::bounding_rect on collections of 0..3 members (exact unrolling, whatever loop / fold form is used): every
+    member's bounding_rect is consulted; the result is None iff no member has one, otherwise the merge of exactly the boxes of the members
+    that have one."""
+    import itertools
+    from ..symex import bare
+    rep.rule("R19.5", "collection bounding_rect (0..3 members, exact unrolling): None iff every member's box is None, otherwise bounding_rect_merge over exactly the members that have a box")
     BR = "geo::algorithm::bounding_rect::BoundingRect"
     try:
         fn = F.impl_method(BR, r"^%sgeometry_collection::GeometryCollection<T>$" % GT, None, "bounding_rect", crates=("geo",))
     except KeyError as e:
         rep.bad("R19.5", "gc:anchor", str(e))
         return
-    ex = Symex(F, no_inline=[r"bounding_rect_merge$", r"BoundingRect<T>>::bounding_rect$", r"::bounding_rect$"], inline_crates=("geo",))
-    try:
-        ps = [p for p in ex.run(fn) if p.kind == "ret"]
-    except Unanalysable as e:
-        rep.bad("R19.5", "gc:unanalysable", str(e), where=fn.loc())
-        return
-    # the result is fold(iter(members), None, closure): tabulate the closure
-    cls = []
-    for p in ps:
-        cls += find_closures(p.ret, [])
-    r = show(ps[0].ret) if ps else ""
-    if not cls or "fold(" not in r or "Option::None()" not in r:
-        rep.bad("R19.5", "gc:shape", "bounding_rect is not a fold over the members starting from None: %s" % r[:120], where=fn.loc())
-        return
-    lam = Lam(ex, cls[0], 2)
-    if not lam.paths:
-        rep.bad("R19.5", "gc:closure", "cannot tabulate the fold step (%s)" % lam.err, where=fn.loc())
-        return
-    table = {}
-    for p in lam.paths:
-        acc = nxt = None
-        for t, v in p.pc:
-            s = show(t)
-            if t[0] == "discr":
-                if "bound(0)" in s:
-                    acc = v
-                elif "bound(1)" in s or "bounding_rect" in s:
-                    nxt = v
-        out = show(p.ret)
-        if "bounding_rect_merge" in out:
-            o = "merge"
-        elif out.startswith("Option::None"):
-            o = "none"
-        elif "bound(0)" in out and "bounding_rect(" not in out:
-            o = "acc"
-        elif "bounding_rect(" in out or "bound(1)" in out:
-            o = "next"
-        else:
-            o = out[:40]
-        table[(acc, nxt)] = o
-    want = {(1, 1): "merge", (1, 0): "acc", (0, 1): "next", (0, 0): "none"}
-    # rows may be merged when an arm does not examine one operand: expand
-    full = {}
-    for (a, n_), o in table.items():
-        for aa in ([a] if a is not None else [0, 1]):
-            for nn in ([n_] if n_ is not None else [0, 1]):
-                full[(aa, nn)] = o
-    bad = {k: (full.get(k), v) for k, v in want.items() if full.get(k) != v and not (k == (0, 0) and full.get(k) in ("acc", "next", "none"))}
-    if bad:
-        k = sorted(bad)[0]
-        names = {1: "Some", 0: "None"}
-        rep.bad("R19.5", "gc:merge-table", "with accumulator %s and member box %s the fold step yields `%s`, expected `%s`: a member without coordinates can discard the box accumulated so far" %
-                (names[k[0]], names[k[1]], bad[k][0], bad[k][1]), where=fn.loc())
+    GC = GT + "geometry_collection::GeometryCollection"
+    rows = 0
+    for k in range(4):
+        elems = tuple(("index", ("field", ("deref", ("arg", 1)), "0"), ("const", i)) for i in range(k))
+        gc = ("&", ("adt", GC, "GeometryCollection", (("call", "vec!", (("array", elems),)),)))
+        ex = Symex(F, no_inline=[r"bounding_rect_merge$", r"BoundingRect<T>>::bounding_rect$", r"::bounding_rect$"], inline_crates=("geo", "geo_types"), loop_bound=k + 3,
+                   concrete_iters=True, max_paths=5000)
+        try:
+            ps = ex.run(fn, args=[gc])
+        except Unanalysable as e:
+            rep.bad("R19.5", "gc:unanalysable", str(e), where=fn.loc())
+            return
+        for p in ps:
+            if p.kind != "ret":
+                rep.bad("R19.5", "gc:path", "a %s path for a collection of %d members [%s]" % (p.kind, k, show_pc(p.pc)[:100]), where=fn.loc())
+                return
+            have = {}
+            for t, v in p.pc:
+                b = bare(t)
+                m = re.match(r"^discr\((?:into\()?bounding_rect\(a1\.0\[(\d)\]\)\)?\)$", b)
+                if m:
+                    have[int(m.group(1))] = v
+                else:
+                    rep.bad("R19.5", "gc:foreign-decision", "the result depends on %s, which is not whether a member has a bounding box" % b[:100], where=fn.loc())
+                    return
+            rows += 1
+
+            def box(t, hv):
+                """value of an Option<Rect> / Rect term: None, or the set of members whose boxes were merged into it"""
+                while t[0] in ("&", "deref"):
+                    t = t[1]
+                if t[0] == "adt" and t[1].endswith("Option"):
+                    return None if t[2] == "None" else box(t[3][0], hv)
+                if t[0] == "call":
+                    nm = t[1].rsplit("::", 1)[-1]
+                    if nm == "bounding_rect" and t[2]:
+                        m_ = re.match(r"^a1\.0\[(\d)\]$", bare(t[2][0]))
+                        if m_:
+                            i_ = int(m_.group(1))
+                            return frozenset([i_]) if hv[i_] else None
+                    if nm in ("into", "from", "clone") and t[2]:
+                        return box(t[2][0], hv)
+                    if nm == "bounding_rect_merge" and len(t[2]) == 2:
+                        a_, b_ = box(t[2][0], hv), box(t[2][1], hv)
+                        if a_ is None or b_ is None:
+                            raise ValueError("merge of a missing box")
+                        return a_ | b_
+                if t[0] == "field" and t[2] in ("0", 0) and t[1][0] == "as" and t[1][2] == "Some":
+                    v_ = box(t[1][1], hv)
+                    if v_ is None:
+                        raise ValueError("payload of None")
+                    return v_
+                raise ValueError("term %s" % bare(t)[:60])
+            undecided = [i for i in range(k) if i not in have]
+            for fill in itertools.product((0, 1), repeat=len(undecided)):
+                hv = dict(have)
+                hv.update(dict(zip(undecided, fill)))
+                want = frozenset(i for i in range(k) if hv[i]) or None
+                try:
+                    got = box(p.ret, hv)
+                except ValueError as e:
+                    got = "unevaluable (%s)" % e
+                if got != want:
+                    rep.bad("R19.5", "gc:merge-table", "for a collection of %d members of which %s have a box the result is %s, i.e. covers %s: expected the merge of exactly the boxes of the "
+                            "members that have one (None if none) — a member without coordinates must not discard or replace the box accumulated so far" % (
+                                k, sorted(want) if want else "none", bare(p.ret)[:120], sorted(got) if isinstance(got, frozenset) else got), where=fn.loc())
+                    return
+    if rows < 15:
+        rep.bad("R19.5", "gc:floor", "only %d rows" % rows, where=fn.loc())
     else:
-        rep.ok("R19.5", "gc:merge-table", sample={str(k): v for k, v in full.items()})
+        rep.ok("R19.5", "gc:merge-table[%d rows, 0..3 members]" % rows)
 
 
 # ------------------------------------------------------------------ extremes
 def extremes(rep, F):
-    rep.rule("R19.7", "extremes: x_min/y_min/x_max/y_max are each updated under a strict comparison on their own axis and direction, storing coord and index of the same item")
+    """R19.7: the blanket Extremes impl on traversals of 0..3 coordinates (the traversal is supplied as a concrete iterator, so `for` loops and
+    folds unroll alike); the path table is walked with integer coordinate assignments: None iff the traversal is empty, otherwise every record
+    names an index within range, carries the coordinate at that index, and that coordinate attains the bound of its axis and direction."""
+    import itertools
+    from ..evalterm import Evaluator, Enum, NoModel
+    from ..symex import _ret
+    rep.rule("R19.7", "extremes (traversals of 0..3 coordinates, exact unrolling, integer witnesses): None iff empty; each of x_min / y_min / x_max / y_max holds (i, coords[i]) with coords[i] attaining that bound")
     try:
         fn = [f for f in F.find(r"extremes::.*::extremes$|extremes::Extremes.*extremes$", crates=("geo",)) if f.kind != "Closure"][0]
     except IndexError:
         rep.bad("R19.7", "anchor", "extremes not found")
         return
-    ex = Symex(F, no_inline=[r"exterior_coords_iter$"], loop_bound=1, inline_crates=("geo",), max_paths=5000)
-    try:
-        paths = [p for p in ex.run(fn) if p.kind in ("ret", "cut")]
-    except Unanalysable as e:
-        rep.bad("R19.7", "unanalysable", str(e), where=fn.loc())
-        return
-    # two-item unrolling: the first item initialises the four records, the second may replace each of them
-    OUT = "geo::algorithm::extremes::Outcome"
-    fields = [f["name"] for f in F.adts[OUT]["variants"][0]["fields"]] if OUT in F.adts else []
-    if fields != ["x_min", "y_min", "x_max", "y_max"]:
-        rep.bad("R19.7", "layout", "Outcome fields are %s" % fields, where=fn.loc())
-        return
     n = 0
-    problems = []
-    for p in paths:
-        if p.kind != "ret":
-            continue
-        nexts = [(t_, v) for t_, v in p.pc if t_[0] == "discr" and isinstance(t_[1], tuple) and t_[1][0] == "call" and t_[1][1].endswith("::next")]
-        if [v for _, v in nexts] != [1, 1, 0]:
-            continue
-        i1 = ("field", ("as", nexts[0][0][1], "Some"), "0")
-        i2 = ("field", ("as", nexts[1][0][1], "Some"), "0")
+    for k in range(4):
+        items = tuple(("field", ("arg", 1), "c%d" % i) for i in range(k))
 
-        def coord(it, ax):
-            return ("field", ("field", it, "1"), ax)
-        d = dict(p.pc)
-        A = d.get(("cmp", "lt", coord(i2, "x"), coord(i1, "x")))
-        B = d.get(("cmp", "lt", coord(i2, "y"), coord(i1, "y")))
-        Cx = d.get(("cmp", "lt", coord(i1, "x"), coord(i2, "x")))
-        Dy = d.get(("cmp", "lt", coord(i1, "y"), coord(i2, "y")))
-        if None in (A, B, Cx, Dy):
-            problems.append("a record is not updated under a strict comparison of the item with the record on its own axis (atoms: %s)" % show_pc(p.pc)[-200:])
-            continue
-        r = p.ret
-        if r[0] != "adt" or r[2] != "Some" or r[3][0][0] != "adt":
-            problems.append("result is %s" % show(r)[:80])
-            continue
-        recs = r[3][0][3]
-        want = {"x_min": A, "y_min": B, "x_max": Cx, "y_max": Dy}
-        n += 1
-        for name, rec in zip(fields, recs):
-            if rec[0] != "adt":
-                problems.append("%s is %s" % (name, show(rec)[:60]))
+        def model(ex, st, call, args, items=items):
+            return _ret(st, ("citer", items, 0))
+        ex = Symex(F, models={"geo::algorithm::coords_iter::CoordsIter::exterior_coords_iter": model}, loop_bound=k + 3, inline_crates=("geo",), max_paths=20000, concrete_iters=True)
+        try:
+            paths = ex.run(fn)
+        except Unanalysable as e:
+            rep.bad("R19.7", "unanalysable", str(e), where=fn.loc())
+            return
+        if any(p.kind == "cut" for p in paths):
+            rep.bad("R19.7", "unbounded", "extremes does not finish within the exact unrolling of %d coordinates" % k, where=fn.loc())
+            return
+        vals = range(3)
+        for assign in itertools.product(itertools.product(vals, vals), repeat=k):
+            coords = [{"x": x, "y": y} for x, y in assign]
+            ev = Evaluator(F, {("arg", 1): {"c%d" % i: c for i, c in enumerate(coords)}}, {})
+            try:
+                hit = ev.select_path([p for p in paths if p.kind != "cut"])
+                if len(hit) != 1:
+                    rep.bad("R19.7", "table", "coordinates %s select %d rows" % (assign, len(hit)), where=fn.loc())
+                    return
+                if hit[0].kind != "ret":
+                    rep.bad("R19.7", "panic", "extremes panics for coordinates %s" % (assign,), where=fn.loc())
+                    return
+                out = ev.ev(hit[0].ret)
+            except NoModel as e:
+                rep.bad("R19.7", "non-abstractable", "a decision of extremes is not a coordinate comparison (%s)" % e, where=fn.loc())
+                return
+            n += 1
+            if k == 0:
+                if not (isinstance(out, Enum) and out.variant == "None"):
+                    rep.bad("R19.7", "records", "an empty traversal gives %r" % (out,), where=fn.loc())
+                    return
                 continue
-            ef = [f["name"] for f in F.adts["geo::algorithm::extremes::Extreme"]["variants"][0]["fields"]]
-            vals = dict(zip(ef, rec[3]))
-            item = i2 if want[name] == 1 else i1
-            if vals.get("index") != ("field", item, "0") or vals.get("coord") != ("field", item, "1"):
-                which = "second" if want[name] == 1 else "first"
-                problems.append("%s should hold index and coord of the %s item on the path [%s] but holds index=%s coord=%s" % (name, which, show_pc(p.pc)[-120:], show(vals.get("index"))[-40:], show(vals.get("coord"))[-40:]))
-    if problems:
-        rep.bad("R19.7", "records", problems[0], where=fn.loc())
-    elif n < 16:
-        rep.bad("R19.7", "rows", "only %d two-item rows" % n, where=fn.loc())
+            if not (isinstance(out, Enum) and out.variant == "Some" and isinstance(out.payload[0], dict)):
+                rep.bad("R19.7", "records", "coordinates %s give %r" % (assign, out), where=fn.loc())
+                return
+            rec = out.payload[0]
+            for name, axis, pick in (("x_min", "x", min), ("y_min", "y", min), ("x_max", "x", max), ("y_max", "y", max)):
+                e_ = rec.get(name)
+                idx, c = (e_ or {}).get("index"), (e_ or {}).get("coord")
+                bound = pick(cc[axis] for cc in coords)
+                if not isinstance(idx, int) or not (0 <= idx < k) or c != coords[idx] or c[axis] != bound:
+                    rep.bad("R19.7", "records", "for the traversal %s the record %s is (index %s, coord %s): expected an index whose coordinate attains %s %s = %s" % (
+                        list(assign), name, idx, c, "min" if pick is min else "max", axis, bound), where=fn.loc())
+                    return
+    if n < 700:
+        rep.bad("R19.7", "rows", "only %d witness traversals" % n, where=fn.loc())
     else:
-        rep.ok("R19.7", "records[%d two-item rows]" % n)
+        rep.ok("R19.7", "records[%d witness traversals of 0..3 coordinates]" % n)
 
 
 # ------------------------------------------------------------------------------------------------ R19.3 / R19.4
